@@ -25,12 +25,18 @@ var c03LineErr = regexp.MustCompile(`^line \d+: `)
 func C03Verdict(data []byte, ml, ii bool) (sig, detail string) {
 	var doc *gedcom.Document
 	var err error
-	pi := fw.Try(func() {
+	// Decode must return: fw.Guard reads off the goroutines whether the call
+	// is parked for ever (a reader goroutine nobody drains, a wait that is
+	// never answered), independently of the clock.
+	pi, parked := fw.Guard(func() {
 		d := gedcom.NewDecoder(bytes.NewReader(data))
 		d.AllowMultiLine = ml
 		d.AllowInvalidIndents = ii
 		doc, err = d.Decode()
 	})
+	if parked != "" {
+		return "decode-does-not-return:deadlock@" + fw.InnermostRepoFrame(parked), "Decode never returns: every goroutine of the library is parked\n" + clip(parked, 2000)
+	}
 	switch {
 	case pi != nil:
 		if strings.HasPrefix(pi.Msg, "indent is too large") && !ii {
@@ -97,6 +103,12 @@ func c03Adversarial() [][]byte {
 		"junk\n", "junk\n0 HEAD\n", "0 HEAD\njunk\n", "0 HEAD\n\njunk\n\n", " 0 HEAD\n", "0\tHEAD\n", "0 HEAD\t\n", "0 HE AD\n", "0 HÉAD\n", "0 @I1@INDI\n",
 	} {
 		add(s)
+	}
+	// a fault early in a long file: whatever reads ahead must not be left waiting
+	for _, first := range []string{"junk", "1 NAME x", "0 HUSB @I1@", "0 HEAD\n3 NOTE too deep", "0 HEAD\n1 @I1@"} {
+		for _, n := range []int{200, 300, 1100, 5000} {
+			add(first + "\n" + strings.Repeat("0 NOTE after the fault\n1 CONT more\n", n/2))
+		}
 	}
 	add("0 NOTE " + strings.Repeat("x", 1<<20) + "\n")
 	add(strings.Repeat("9", 1<<16) + " NOTE\n")
